@@ -355,18 +355,18 @@ func checkCallbackSetters(c *Ctx, rule string, typeName string, min int) {
 	p := c.P
 	n := 0
 	for _, f := range p.Funcs {
-		if f.Signature.Recv() == nil || f.Parent() != nil || len(f.Params) != 2 || len(f.Name()) < 3 || f.Name()[:2] != "On" {
+		if f.Signature.Recv() == nil || f.Parent() != nil || len(f.Params) != 2 || len(fnName(f)) < 3 || fnName(f)[:2] != "On" {
 			continue
 		}
 		nt := namedOf(f.Signature.Recv().Type())
-		if nt == nil || nt.Obj().Name() != typeName || !p.IsRepoFunc(f) {
+		if nt == nil || canonTypeName(nt.Obj()) != typeName || !p.IsRepoFunc(f) {
 			continue
 		}
 		if _, isFn := f.Params[1].Type().Underlying().(*types.Signature); !isFn {
 			continue
 		}
 		n++
-		want := "on" + f.Name()[2:]
+		want := "on" + fnName(f)[2:]
 		ok, d, k := true, "", 0
 		for _, ss := range p.Stores([]*ssa.Function{f}) {
 			if ss.Owner != typeName {
@@ -382,7 +382,7 @@ func checkCallbackSetters(c *Ctx, rule string, typeName string, min int) {
 		if k == 0 {
 			ok, d = false, "does not keep the callback"
 		}
-		c.Check(ok, rule, "setter:"+typeName+"."+f.Name(), p.Pos(f.Pos()), want+" ← the callback given", typeName+"."+f.Name()+" "+d)
+		c.Check(ok, rule, "setter:"+typeName+"."+fnName(f), p.Pos(f.Pos()), want+" ← the callback given", typeName+"."+fnName(f)+" "+d)
 	}
 	c.Min(rule, "callback setters of "+typeName, n, min)
 }
